@@ -121,35 +121,6 @@ macro_rules! acc_slice {
     }};
 }
 
-/// Same law with the pairs 0 <= a <= b <= N enumerated by concrete loops instead of symbolic bounds: equally
-/// exhaustive, but ndarray / VecDeque slicing divides by the step and wraps ring indices, which is far cheaper for
-/// CBMC on constants.
-macro_rules! acc_slice_enum {
-    ($v:expr, $x:expr, $N:expr, $fl:expr) => {{
-        let mut a = 0usize;
-        while a <= $N {
-            let mut b = a;
-            while b <= $N {
-                let sl = Vec1View::slice($v, a, b).unwrap();
-                assert!(sl.wlen() == b - a, "slice(a, b) has b - a elements");
-                let mut j = 0;
-                while j < b - a {
-                    assert!(sl.wget(j) == $x[a + j], "slice(a, b) element j is logical element a + j");
-                    j += 1;
-                }
-                if 0 < a && a < b && b < $N {
-                    $fl.inner_slice = true;
-                }
-                if a == b {
-                    $fl.empty_slice = true;
-                }
-                b += 1;
-            }
-            a += 1;
-        }
-    }};
-}
-
 // ---------------------------------------------------------------------------------------------
 // (b) end-to-end witnesses
 // ---------------------------------------------------------------------------------------------
